@@ -1,3 +1,5 @@
+(* C08/Proofs.v — lemmas about the serve-loop model: the reader stack step by step,
+   any handler tree against it, handleInputStream on one element, the Serve loop. *)
 From XV Require Import lib.Bytes lib.Xml gen.Serve C08.Model.
 From Coq Require Import ZArith Lia ZifyBool ZifyNat ZifyN.
 
@@ -580,3 +582,203 @@ Proof.
     + cbn [view length map app]. rewrite IH; [|cbn in H; lia]. reflexivity.
 Qed.
 
+
+(* ---- from normalisation ---- *)
+
+Definition is_from (x : attr) : bool := is_nil (nspace (aname x)) && bytes_eqb (nlocal (aname x)) s_from.
+
+(* attribute for attribute: same name; same value, except that the first unqualified from
+   is emptied when it is the session's own bare address *)
+Lemma norm_from_spec own : forall a,
+  Forall2 (fun x y => aname y = aname x /\ (aval y = aval x \/ (is_from x = true /\ aval x = own /\ aval y = [])))
+          a (norm_from own a).
+Proof.
+  induction a as [|x a IH]; cbn [norm_from]; [constructor|].
+  destruct (is_nil (nspace (aname x)) && bytes_eqb (nlocal (aname x)) s_from) eqn:E.
+  - constructor.
+    + destruct (bytes_eqb (aval x) own) eqn:Eo.
+      * cbn. split; [reflexivity|]. right. apply bytes_eqb_eq in Eo. auto.
+      * split; [reflexivity|left; reflexivity].
+    + clear. induction a; constructor; auto.
+  - constructor; [split; [reflexivity|left; reflexivity]|exact IH].
+Qed.
+
+Lemma norm_from_get own : forall a,
+  attr_get s_from (norm_from own a) = if bytes_eqb (attr_get s_from a) own then [] else attr_get s_from a.
+Proof.
+  induction a as [|x a IH]; cbn [norm_from attr_get].
+  - destruct (bytes_eqb [] own); reflexivity.
+  - destruct (is_nil (nspace (aname x)) && bytes_eqb (nlocal (aname x)) s_from) eqn:E.
+    + destruct (bytes_eqb (aval x) own) eqn:Eo; cbn [attr_get aname aval]; rewrite E; reflexivity.
+    + cbn [attr_get]. rewrite E. exact IH.
+Qed.
+
+(* normalisation does not touch id and type *)
+Lemma norm_from_id_typ own : forall a id typ fi ft,
+  get_id_typ_from (norm_from own a) id typ fi ft = get_id_typ_from a id typ fi ft.
+Proof.
+  induction a as [|x a IH]; intros id typ fi ft; cbn [norm_from]; [reflexivity|].
+  destruct (is_nil (nspace (aname x)) && bytes_eqb (nlocal (aname x)) s_from) eqn:E.
+  - destruct (bytes_eqb (aval x) own); [|reflexivity].
+    apply andb_true_iff in E. destruct E as [E1 E2]. apply bytes_eqb_eq in E2.
+    cbn [get_id_typ_from aname aval]. rewrite E1. cbn [negb]. rewrite E2.
+    replace (bytes_eqb s_from s_id) with false by reflexivity.
+    replace (bytes_eqb s_from s_type) with false by reflexivity. reflexivity.
+  - cbn [get_id_typ_from]. destruct (negb (is_nil (nspace (aname x)))); [apply IH|].
+    destruct ((fi || bytes_eqb (nlocal (aname x)) s_id) && (ft || bytes_eqb (nlocal (aname x)) s_type)); [reflexivity|apply IH].
+Qed.
+
+(* ---- a well-formed stream error ---- *)
+
+(* <stream:error><cond xmlns='urn:ietf:params:xml:ns:xmpp-streams'/></stream:error>: the condition is read *)
+Lemma se_scan_simple cond a n1 n2 rest :
+  bytes_eqb cond s_text = false ->
+  se_scan 0 [] (TStart (mkname sv_ns_stream_error cond) a :: TEnd n1 :: TEnd n2 :: rest) = EStreamErr cond.
+Proof.
+  intro H. cbn [se_scan nspace nlocal].
+  replace (bytes_eqb sv_ns_stream_error sv_ns_stream_error) with true by reflexivity.
+  rewrite H. reflexivity.
+Qed.
+
+Lemma se_scan_never_eof : forall l d cond, se_scan d cond l <> EEOF /\ se_scan d cond l <> EPoison /\ se_scan d cond l <> EFuel.
+Proof.
+  induction l as [|t r IH]; intros d cond; cbn [se_scan]; [repeat split; discriminate|].
+  destruct d.
+  - destruct t as [n a|n|b|k b]; try apply IH; [|repeat split; discriminate].
+    destruct (bytes_eqb (nspace n) sv_ns_stream_error); [apply IH|repeat split; discriminate].
+  - destruct t; apply IH.
+Qed.
+
+(* the distinguished model-only errors never come out of the reader stack *)
+Lemma term_of_real ws e : term_of ws e <> EPoison /\ term_of ws e <> EFuel.
+Proof.
+  destruct e as [rest|t r|]; cbn [term_of]; try (split; discriminate).
+  destruct t as [n a|n|b|k b]; cbn [dirty_err].
+  - destruct (ws && bytes_eqb (nspace n) sv_ns_framing); [split; discriminate|].
+    destruct (bytes_eqb (nlocal n) s_error); [destruct (se_scan_never_eof r 0 []) as [_ [? ?]]; split; assumption|].
+    destruct (bytes_eqb (nlocal n) s_stream); split; discriminate.
+  - destruct (bytes_eqb (nlocal n) s_stream); split; discriminate.
+  - split; discriminate.
+  - destruct k as [|[|k]]; split; discriminate.
+Qed.
+
+(* ---- how Serve ends at a stream-level construct between elements ---- *)
+
+Lemma serve_top c hf fuel idx l e : top_err (c_ws c) l = Some e -> 0 < fuel ->
+  s_invs (serve c fuel hf idx (mkp l 0%N false)) = [] /\
+  s_ret (serve c fuel hf idx (mkp l 0%N false)) = ret_of e.
+Proof.
+  intros Ht Hf. destruct fuel as [|f]; [lia|]. cbn [serve p_toks].
+  destruct (his_top c (S (length l)) (hf idx) l e Ht) as [p' E]. rewrite E.
+  destruct e; cbn [s_invs s_ret ret_of]; split; reflexivity.
+Qed.
+
+(* ---- the clauses of C08 as they are stated in Properties.v ---- *)
+
+Lemma c08_view c fuel hf pd n a l pre e :
+  clean (c_ws c) (TStart n a) = true -> scan (c_ws c) 0 l = (pre, e) -> length l < fuel ->
+  exists v p', his c fuel hf (mkp (TStart n a :: l) pd false) = (HRInv v, p') /\
+    (exists k, v_seen v = view k pre (term_of (c_ws c) e)) /\
+    (forall t x, In (Some t, x) (v_seen v) -> In t pre /\ x = None).
+Proof.
+  intros Hc Hs Hl. destruct (his_elem c fuel hf pd n a l pre e Hc Hs Hl) as [v [p' [E Hv]]].
+  exists v, p'. split; [exact E|]. destruct Hv as [_ [_ [[k Hk] _]]].
+  split; [exists k; exact Hk|]. intros t x Hin. rewrite Hk in Hin. apply (view_tokens _ _ _ _ _ Hin).
+Qed.
+
+Lemma c08_resync c fuel hf pd n a l pre e :
+  clean (c_ws c) (TStart n a) = true -> scan (c_ws c) 0 l = (pre, e) -> length l < fuel ->
+  exists v p', his c fuel hf (mkp (TStart n a :: l) pd false) = (HRInv v, p') /\
+    (forall rest, e = SEComplete rest -> v_ret v = None -> p' = mkp rest pd false) /\
+    (term_of (c_ws c) e <> EEOF -> v_ret v <> None) /\
+    v_ret v <> Some EEOF.
+Proof.
+  intros Hc Hs Hl. destruct (his_elem c fuel hf pd n a l pre e Hc Hs Hl) as [v [p' [E Hv]]].
+  exists v, p'. split; [exact E|]. destruct Hv as [_ [_ [_ [H4 [H5 [H6 _]]]]]].
+  split; [|split; assumption]. intros rest He Hr. destruct (H4 Hr) as [_ [H _]]. apply H. exact He.
+Qed.
+
+Lemma c08_from c fuel hf pd n a l :
+  clean (c_ws c) (TStart n a) = true -> length l < fuel ->
+  exists v p', his c fuel hf (mkp (TStart n a :: l) pd false) = (HRInv v, p') /\
+    v_name v = n /\ v_attrs v = (if stanza_is n (c_ns c) then norm_from (c_own c) a else a).
+Proof.
+  intros Hc Hl. destruct (scan (c_ws c) 0 l) as [pre e] eqn:Hs.
+  destruct (his_elem c fuel hf pd n a l pre e Hc Hs Hl) as [v [p' [E Hv]]].
+  exists v, p'. split; [exact E|]. destruct Hv as [H1 [H2 _]]. split; assumption.
+Qed.
+
+(* a stream-level construct inside an element: whatever the handler does, the invocation fails *)
+Lemma c08_nested_fatal c fuel hf pd n a l pre t r base :
+  clean (c_ws c) (TStart n a) = true -> scan (c_ws c) 0 l = (pre, SEDirty t r) -> length l < fuel ->
+  ends_match (n :: base) l = true ->
+  exists v p', his c fuel hf (mkp (TStart n a :: l) pd false) = (HRInv v, p') /\ v_ret v <> None /\
+    (forall tk x, In (Some tk, x) (v_seen v) -> clean (c_ws c) tk = true).
+Proof.
+  intros Hc Hs Hl Hm. destruct (his_elem c fuel hf pd n a l pre _ Hc Hs Hl) as [v [p' [E Hv]]].
+  exists v, p'. split; [exact E|]. destruct Hv as [_ [_ [[k Hk] [_ [_ [H6 _]]]]]]. split.
+  - apply H6. cbn [term_of].
+    apply (scan_dirty_not_eof c l 0 [n] base pre t r Hm eq_refl); [|exact Hs].
+    constructor; [|constructor]. cbn [clean] in Hc. apply andb_true_iff in Hc. destruct Hc as [H1 _].
+    apply negb_true_iff in H1. exact H1.
+  - intros tk x Hin. rewrite Hk in Hin. destruct (view_tokens _ _ _ _ _ Hin) as [Hp _].
+    destruct (scan_split (c_ws c) l 0 pre _ Hs) as [Hf _].
+    rewrite Forall_forall in Hf. apply Hf. exact Hp.
+Qed.
+
+Lemma c08_serve_follows c hf toks base :
+  ends_match base toks = true ->
+  follows c toks (s_invs (serve_all c hf toks)) (s_ret (serve_all c hf toks)).
+Proof. intro Hm. unfold serve_all. apply (serve_follows c hf (S (length toks)) 0 toks base Hm). lia. Qed.
+
+Lemma c08_top c hf toks e : top_err (c_ws c) toks = Some e ->
+  s_invs (serve_all c hf toks) = [] /\ s_ret (serve_all c hf toks) = ret_of e.
+Proof. intro H. unfold serve_all. apply serve_top; [exact H|lia]. Qed.
+
+(* the received stream error is Serve's return value *)
+Lemma c08_stream_error_returned c hf cond a a1 n1 n2 rest :
+  bytes_eqb cond s_text = false -> cond <> [] ->
+  let toks := TStart (mkname sv_ns_stream s_error) a
+              :: TStart (mkname sv_ns_stream_error cond) a1 :: TEnd n1 :: TEnd n2 :: rest in
+  s_invs (serve_all c hf toks) = [] /\ s_ret (serve_all c hf toks) = Some (EStreamErr cond).
+Proof.
+  intros Ht Hne toks.
+  assert (H : top_err (c_ws c) toks = Some (EStreamErr cond)).
+  { unfold toks. cbn [top_err clean nspace].
+    replace (bytes_eqb sv_ns_stream sv_ns_stream) with true by reflexivity. cbn [negb andb].
+    unfold dirty_err. cbn [nspace nlocal].
+    replace (bytes_eqb sv_ns_stream sv_ns_framing) with false by reflexivity. rewrite andb_false_r.
+    replace (bytes_eqb s_error s_error) with true by reflexivity.
+    rewrite (se_scan_simple cond a1 n1 n2 rest Ht). reflexivity. }
+  destruct (c08_top c hf toks _ H) as [E1 E2]. split; [exact E1|]. rewrite E2.
+  cbn [ret_of send_error]. destruct cond; [congruence|reflexivity].
+Qed.
+
+Lemma c08_close c hf n rest :
+  bytes_eqb (nspace n) sv_ns_stream = true -> bytes_eqb (nlocal n) s_stream = true ->
+  s_invs (serve_all c hf (TEnd n :: rest)) = [] /\ s_ret (serve_all c hf (TEnd n :: rest)) = None.
+Proof.
+  intros H1 H2.
+  assert (H : top_err (c_ws c) (TEnd n :: rest) = Some EEOF).
+  { cbn [top_err clean]. rewrite H1. cbn [negb]. unfold dirty_err. rewrite H2. reflexivity. }
+  apply (c08_top c hf _ _ H).
+Qed.
+
+Lemma c08_scan_clean ws l c0 pre e : scan ws c0 l = (pre, e) -> Forall (fun t => clean ws t = true) pre.
+Proof. intro H. apply (scan_split ws l c0 pre e H). Qed.
+
+Lemma c08_readable :
+  forall (ws : bool) (l : list token),
+  (forall b rest, elem_body 0 l = Some (b, rest) -> Forall (fun t => clean ws t = true) b ->
+                  scan ws 0 l = (b, SEComplete rest)) /\
+  (forall pre rest, scan ws 0 l = (pre, SEComplete rest) -> l = pre ++ rest /\ elem_body 0 l = Some (pre, rest)) /\
+  (forall pre t r, scan ws 0 l = (pre, SEDirty t r) -> l = pre ++ t :: r /\ clean ws t = false) /\
+  (forall k pre term, k <= length pre -> view k pre term = map ok_res (firstn k pre)) /\
+  (forall k pre term, length pre <= k ->
+      view k pre term = map ok_res pre ++ repeat (None, Some term) (k - length pre)).
+Proof.
+  intros ws l. split; [intros b rest; apply scan_of_body|].
+  split; [intros pre rest H; apply (scan_split ws l 0 pre _ H)|].
+  split; [intros pre t r H; apply (scan_split ws l 0 pre _ H)|].
+  split; [apply view_short|apply view_long].
+Qed.
